@@ -121,7 +121,71 @@ ASSUMPTIONS = [
     "NOT proved (bounded over seeds only): cumsum + scatter over the symbolic number of bins (whole offline raster), the online generators, Poisson-interval encoders' zero silence, reproducibility (torch RNG determinism is trusted)",
 ]
 
+
+EP = "inferno/neural/encoders/poisson.py"
+ES = "inferno/neural/encoders/special.py"
+EM = "inferno/neural/encoders/mixins.py"
+
+
+def _encoder(cls, file, fn_off, fn_on, refractory):
+    @contract(P, f"{cls}.forward", [(file, f"{cls}.__init__"), (file, f"{cls}.forward"), (file, f"{cls}.frequency"), (EM, "StepTimeMixin.__init__"), (EM, "StepTimeMixin.dt"), (EM, "StepMixin.__init__"), (EM, "StepMixin.steps"), (EM, "GeneratorMixin.__init__"), (EM, "GeneratorMixin.generator")] + ([(EM, "RefractoryStepMixin.__init__"), (EM, "RefractoryStepMixin.refrac"), (EM, "RefractoryStepMixin.dt"), (EM, "RefractoryStepMixin.dt@setter")] if refractory else []))
+    def enc(c, cls=cls):
+        """the encoder module hands the functional encoder exactly its configuration: intensity scaled by the maximum
+        frequency, the configured number of steps, step time, (given or derived) refractory period, compensation flag
+        and generator - online and offline alike"""
+        from pyvc import repo
+
+        steps, dt, freq = c.int("steps"), c.real("dt"), c.real("max_frequency")
+        c.require(steps >= 1, dt > 0, freq >= 0)
+        gen = "<generator>"
+        kw = dict(generator=gen)
+        rmode = None
+        if refractory:
+            rmode = c.choice("refrac", ["none", "given"])
+            comp = c.choice("compensate", [True, False])
+            refrac = c.real("refrac") if rmode == "given" else None
+            if refrac is not None:
+                c.require(refrac >= 0)
+            kw.update(refrac=refrac, compensate=comp)
+        calls = []
+        for fname in (fn_off, fn_on):
+            def summary(interp, fi, args, kwargs, fname=fname):
+                calls.append((fname, args, kwargs))
+                return f"<{fname} result>"
+
+            c.interp.summaries[(EN, fname)] = summary
+        cv = c.interp.classv(repo.load_module(file).classes[cls])
+        e = c.call(cv, steps, dt, freq, **kw)
+        x = c.pw("intensity")
+        online = c.choice("online", [False, True])
+        out = c.outcome(c.getattr(e, "forward"), x, online)
+        c.expect_return(out)
+        c.ensure("delegates_once_to_the_matching_functional_encoder", len(calls) == 1 and calls[0][0] == (fn_on if online else fn_off) and out.value == f"<{calls[0][0]} result>")
+        _f, a, k = calls[0]
+        c.ensure("intensity_scaled_by_the_maximum_frequency", len(a) == 1 and a[0].f == freq.z * x.f)
+        c.ensure("configured_steps_and_step_time", z3.And(num(k["steps"]) == steps.z, num(k["step_time"]) == dt.z))
+        c.ensure("generator_forwarded", k["generator"] == gen)
+        if refractory:
+            exp_r = dt.z if rmode == "none" else kw["refrac"].z
+            c.ensure("refractory_period_given_or_derived_from_dt", (num(k["refrac"]) == exp_r) if k.get("refrac") is not None else z3.BoolVal(False))
+            c.ensure("compensation_flag_forwarded", k["compensate"] is kw["compensate"])
+            # a later change of the step time moves a DERIVED refractory period with it and leaves a given one alone
+            dt2 = c.real("dt2")
+            c.require(dt2 > 0)
+            c.setattr(e, "dt", dt2)
+            c.ensure("derived_refractory_period_follows_dt", num(c.getattr(e, "refrac")) == (dt2.z if rmode == "none" else kw["refrac"].z))
+        c.canary("canary_unscaled", z3.And(a[0].f == x.f, freq.z != 1, x.f != 0))
+
+    return enc
+
+
+_encoder("HomogeneousPoissonEncoder", EP, "homogeneous_poisson_exp_interval", "homogeneous_poisson_exp_interval_online", True)
+_encoder("HomogeneousPoissonApproxEncoder", EP, "homogenous_poisson_bernoulli_approx", "homogenous_poisson_bernoulli_approx_online", False)
+_encoder("PoissonIntervalEncoder", ES, "poisson_interval", "poisson_interval_online", False)
+
 MUTANTS = [
+    dict(file="inferno/neural/encoders/poisson.py", func="HomogeneousPoissonEncoder.forward", old="                refrac=self.refrac,\n                compensate=self.compensated,\n                generator=self.generator,\n            )\n        else:", new="                refrac=None,\n                compensate=self.compensated,\n                generator=self.generator,\n            )\n        else:", contracts=["HomogeneousPoissonEncoder.forward"], name="online encoding ignores the configured refractory period"),
+    dict(file="inferno/neural/encoders/mixins.py", func="RefractoryStepMixin.dt@setter", old="        if self.__derive_refrac:\n            self.__refrac_time = StepMixin.dt.fget(self)", new="        pass", contracts=["HomogeneousPoissonEncoder.forward"], name="derived refractory period goes stale when dt changes"),
     dict(file=EN, func="homogeneous_poisson_exp_interval", old="refrac = step_time if refrac is None else refrac", new="refrac = step_time if refrac is None else step_time", contracts=["homogeneous_poisson_exp_interval[intervals]"], name="D19 regression: refrac argument ignored"),
     dict(file=EN, func="homogeneous_poisson_exp_interval", old="            + refrac\n", new="", contracts=["homogeneous_poisson_exp_interval[intervals]"]),
     dict(file=EN, func="homogenous_poisson_bernoulli_approx", old="res.clamp_max_(1.0)", new="res.clamp_min_(1.0)", contracts=["homogenous_poisson_bernoulli_approx"]),
